@@ -15,11 +15,13 @@ RULE = (
     "every class in MESSAGE_CLASSES and RETURN_MESSAGE_CLASSES (introspected), fields drawn over their declared "
     "ctypes widths with boundary bias, subroutine payloads from the C01 generator, arrays of length 0..64 with arbitrary "
     "None patterns (some of length 255..700), all ErrorCode/Signal members, at the default log level or with the library logging at DEBUG / INFO; oracle: deserialize(bytes(m)) has the same class and equal fields; histories: one message serialised, changed (in-place list edits, attribute assignment), serialised again; one byte string decoded, the result changed, decoded again; 8-bit code fields (error code, signal) with any 8-bit value, set on the object or arriving as bytes. "
+    "The integer fields and array entries are given as plain int or carried by another integer type the pinned tree takes (bool for 0/1, an int subclass, numpy signed/unsigned integer scalars of every size that holds the number; several types mixed in one array; the array as list, tuple or ndarray), in single messages, in the histories (initial values and edits) and enumerated over small patterns; the oracle compares with the plain numbers. "
     "Non-trivial = array with both defined and undefined entries, or any field at a width boundary, or a subroutine "
     "payload with >=1 instruction; distinct by (class, field values)"
 )
 ASSUMPTIONS = [
     "messages are constructed through their public constructors with in-range field values",
+    "an integer field value is a Python int (including bool and int subclasses) or a numpy integer scalar whose value lies in the declared width; floats and numpy.bool_ are outside (the pinned tree refuses them)",
     "field widths are those declared on the pinned tree (app/message ids uint32, socket/node ids and integers int32, qubit counts/fidelity uint8), frozen in the check",
 ]
 SHARDS = {"quick": 1, "thorough": 16}
@@ -49,6 +51,84 @@ def all_fields(cls):
 # Declared field widths of the messages, frozen from the pinned tree (like C02's opcode table): a change that narrows
 # a field would otherwise silently narrow the generator with it.
 U8, U32, I32 = ctypes.c_uint8, ctypes.c_uint32, ctypes.c_int32
+
+
+# ---------------------------------------------------------------- the Python type a field value arrives in
+# The declared widths say which *numbers* a field takes, not which Python class carries them: a controller built on a
+# numpy simulator hands over numpy integer scalars (measurement outcomes, elements of an ndarray, results of numpy
+# arithmetic), flags arrive as bool, ids as instances of int subclasses.  The pinned tree takes all of these (ctypes
+# goes through __index__).  A case stays plain JSON: the numbers are in case["fields"] (and the oracle only ever looks
+# at those), the carrier types are named by tags in case["ityp"] and applied when the message object is built.
+INT_TAGS = ["int", "bool", "intsub", "np.int64", "np.int32", "np.int16", "np.int8", "np.uint8", "np.uint16", "np.uint32", "np.uint64"]
+CONTAINERS = ["list", "tuple", "ndarray"]
+
+
+class _IntSub(int):
+    """an int subclass (what an IntEnum member, a typed id, ... is)"""
+
+    __slots__ = ()
+
+
+def _typed(v, tag):
+    """the number v carried by the type named by tag (by np.int64, which holds every declared width, or by int, when
+    that type cannot hold it); undefined stays undefined"""
+    if v is None or tag is None or tag == "int":
+        return v
+    if tag == "bool":
+        return bool(v) if v in (0, 1) else v
+    if tag == "intsub":
+        return _IntSub(v)
+    import numpy as np
+
+    t = getattr(np, tag[3:])
+    info = np.iinfo(t)
+    if info.min <= v <= info.max:
+        return t(v)
+    return np.int64(v)
+
+
+def _carrier(v, tag):
+    """label: the type that actually carries v"""
+    x = _typed(v, tag)
+    return "undefined" if x is None else ("np." if type(x).__module__ == "numpy" else "") + type(x).__name__
+
+
+def _typed_values(values, ityp):
+    tags = (ityp or {}).get("values") or ["int"]
+    vals = [_typed(v, tags[i % len(tags)]) for i, v in enumerate(values)]
+    cont = (ityp or {}).get("container", "list")
+    if cont == "tuple":
+        return tuple(vals)
+    if cont == "ndarray":
+        import numpy as np
+
+        if any(v is None for v in vals):
+            a = np.empty(len(vals), dtype=object)
+            for i, v in enumerate(vals):
+                a[i] = v
+            return a
+        return np.array([int(v) for v in vals], dtype=np.int64)
+    return vals
+
+
+def st_ityp(field_names, is_array):
+    """a tag per integer field / a short cyclic pattern of tags for the entries of an array and the container they come in"""
+    tag = st.sampled_from(INT_TAGS)
+    d = {k: tag for k in field_names}
+    if is_array:
+        d["values"] = st.lists(tag, min_size=1, max_size=5)
+        d["container"] = st.sampled_from(["list"] * 4 + CONTAINERS)
+    return st.fixed_dictionaries(d)
+
+
+TYPED_FIELDS = {
+    "InitNewAppMessage": ["app_id", "max_qubits"],
+    "OpenEPRSocketMessage": ["app_id", "epr_socket_id", "remote_node_id", "remote_epr_socket_id", "min_fidelity"],
+    "StopAppMessage": ["app_id"],
+    "MsgDoneMessage": ["msg_id"],
+    "ReturnRegMessage": ["value"],
+    "ReturnArrayMessage": ["address", "values"],
+}
 
 
 def st_message():
@@ -90,7 +170,14 @@ def st_message():
         for _t, cls in table.items():
             if cls not in known:
                 raise HarnessError(f"message class {cls.__name__} has no generator")
-            strategies.append(known[cls].map(lambda d, cls=cls, direction=direction: {"dir": direction, "cls": cls.__name__, "fields": d}))
+            base = known[cls].map(lambda d, cls=cls, direction=direction: {"dir": direction, "cls": cls.__name__, "fields": d})
+            strategies.append(base)
+            # the same messages with their integer fields carried by other integer types
+            ints = [k for k in TYPED_FIELDS.get(cls.__name__, [])]
+            if ints:
+                strategies.append(
+                    st.tuples(base, st_ityp([k for k in ints if k != "values"], "values" in ints)).map(lambda t: dict(t[0], ityp=t[1]))
+                )
     # the process may run at any log level (the library logs what it serialises at DEBUG)
     return st.tuples(st.one_of(strategies), st.sampled_from([None, None, None, "DEBUG", "INFO"])).map(lambda t: dict(t[0], log_level=t[1]))
 
@@ -104,6 +191,9 @@ def build_message(case):
 
     cls = getattr(M, case["cls"])
     f = case["fields"]
+    ityp = case.get("ityp")
+    if ityp:
+        f = {k: (_typed(v, ityp.get(k)) if k != "values" and isinstance(v, int) else v) for k, v in f.items()}
     if cls is M.SignalMessage:
         return cls(signal=M.Signal[f["signal"]])
     if cls is M.ErrorMessage:
@@ -114,7 +204,7 @@ def build_message(case):
         r = g.reg_from_str(f["register"])
         return cls(register=E.Register(r.name.value, r.index), value=f["value"])
     if cls is M.ReturnArrayMessage:
-        return cls(address=f["address"], values=list(f["values"]))
+        return cls(address=f["address"], values=_typed_values(list(f["values"]), ityp))
     return cls(**f)
 
 
@@ -164,7 +254,9 @@ def _check_message(case) -> None:
             if a is None and b is not None:
                 raise Failure("msg:ReturnArrayMessage:undefined-entry", case, f"undefined entry {i} came back as {b!r}")
             if a != b or (b is not None and not isinstance(b, int)):
-                raise Failure("msg:ReturnArrayMessage:value", case, f"entry {i}: {a!r} came back as {b!r}")
+                tags = (case.get("ityp") or {}).get("values")
+                how = f" (given as {_carrier(a, tags[i % len(tags)])} in a {case['ityp'].get('container', 'list')})" if tags else ""
+                raise Failure("msg:ReturnArrayMessage:value", case, f"entry {i}: {a!r}{how} came back as {b!r}")
         if back.type != m.type:
             raise Failure("msg:ReturnArrayMessage:type", case, "type byte changed")
         return
@@ -212,8 +304,13 @@ def st_history():
         st.tuples(st.just("assign"), st.lists(val, max_size=12)),
         st.tuples(st.just("address"), st.integers(0, 50)),
     )
-    a = st.tuples(arr, st.lists(edit, min_size=1, max_size=4), st.sampled_from(["reserialise", "reserialise-len", "redecode"])).map(
-        lambda t: {"kind": "history", "cls": "ReturnArrayMessage", "fields": t[0], "edits": [list(e) for e in t[1]], "mode": t[2]}
+    # the numbers of the message and of the edits may be carried by any integer type (tags applied cyclically)
+    tags = st.none() | st.lists(st.sampled_from(INT_TAGS), min_size=1, max_size=4)
+    a = st.tuples(arr, st.lists(edit, min_size=1, max_size=4), st.sampled_from(["reserialise", "reserialise-len", "redecode"]), tags).map(
+        lambda t: dict(
+            {"kind": "history", "cls": "ReturnArrayMessage", "fields": t[0], "edits": [list(e) for e in t[1]], "mode": t[2]},
+            **({"ityp": {"address": t[3][0], "values": t[3], "container": "list"}} if t[3] else {}),
+        )
     )
     simple = st.one_of(
         st.tuples(st.just("MsgDoneMessage"), st.just("msg_id"), st_int_ct(U32), st_int_ct(U32)),
@@ -222,8 +319,11 @@ def st_history():
         st.tuples(st.just("StopAppMessage"), st.just("app_id"), st_int_ct(U32), st_int_ct(U32)),
         st.tuples(st.just("OpenEPRSocketMessage"), st.just("remote_node_id"), st_int_ct(I32), st_int_ct(I32)),
     )
-    b = st.tuples(simple, st.sampled_from(["reserialise", "redecode"])).map(
-        lambda t: {"kind": "history", "cls": t[0][0], "field": t[0][1], "v0": t[0][2], "v1": t[0][3], "mode": t[1]}
+    b = st.tuples(simple, st.sampled_from(["reserialise", "redecode"]), st.none() | st.lists(st.sampled_from(INT_TAGS), min_size=2, max_size=2)).map(
+        lambda t: dict(
+            {"kind": "history", "cls": t[0][0], "field": t[0][1], "v0": t[0][2], "v1": t[0][3], "mode": t[1]},
+            **({"ityp": {t[0][1]: t[2][0], "edit": t[2][1]}} if t[2] else {}),
+        )
     )
     # a code outside the enum the constructor takes (a newer peer may send one): set on the object, or arriving as bytes
     c = st.tuples(st.sampled_from([("ErrorMessage", "err_code"), ("SignalMessage", "signal")]), st_int_ct(U8), st.sampled_from(["assign", "bytes"])).map(
@@ -284,30 +384,36 @@ def check_history(case) -> None:
     direction = "return" if case["cls"] in ("ReturnArrayMessage", "MsgDoneMessage", "ReturnRegMessage") else "host"
     deser = M.deserialize_host_msg if direction == "host" else M.deserialize_return_msg
     f0 = _base_fields(case)
+    ityp = case.get("ityp")
     sub = {"dir": direction, "cls": case["cls"], "fields": f0}
+    if ityp:
+        sub["ityp"] = {k: v for k, v in ityp.items() if k != "edit"}
+    etags = (ityp or {}).get("values") or [None]
 
     def apply_edits(m, f):
+        # the message object gets the numbers in their carrier types; f (what the oracle compares with) the plain numbers
         f = {k: (list(v) if isinstance(v, list) else v) for k, v in f.items()}
         if case["cls"] != "ReturnArrayMessage":
-            setattr(m, case["field"], case["v1"])
+            setattr(m, case["field"], _typed(case["v1"], (ityp or {}).get("edit")))
             f[case["field"]] = case["v1"]
             return f
-        for e in case["edits"]:
+        for n, e in enumerate(case["edits"]):
+            tag = etags[(n + 1) % len(etags)]
             if e[0] == "setitem" and f["values"]:
                 i = e[1] % len(f["values"])
-                m.values[i] = e[2]
+                m.values[i] = _typed(e[2], tag)
                 f["values"][i] = e[2]
             elif e[0] == "append":
-                m.values.append(e[1])
+                m.values.append(_typed(e[1], tag))
                 f["values"].append(e[1])
             elif e[0] == "pop" and f["values"]:
                 m.values.pop()
                 f["values"].pop()
             elif e[0] == "assign":
-                m.values = list(e[1])
+                m.values = _typed_values(list(e[1]), ityp)
                 f["values"] = list(e[1])
             elif e[0] == "address":
-                m.address = e[1]
+                m.address = _typed(e[1], tag)
                 f["address"] = e[1]
         return f
 
@@ -341,6 +447,28 @@ def check_history(case) -> None:
         same(d2, f0, "after the first decoded object was changed, decoding the same bytes again gives")
 
 
+def _type_labels(case) -> List[str]:
+    """which integer types actually carry the values of this case (after the fall-back for values a type cannot hold)"""
+    ityp = case.get("ityp")
+    if not ityp:
+        return []
+    out = set()
+    f = case["fields"]
+    for k, v in f.items():
+        if k == "values":
+            tags = ityp.get("values") or ["int"]
+            carriers = {_carrier(x, tags[i % len(tags)]) for i, x in enumerate(v)}
+            out |= {"entry-type:" + c for c in carriers if c != "undefined"}
+            if len(carriers - {"undefined"}) > 1:
+                out.add("entry-type:mixed-in-one-array")
+            if "undefined" in carriers and carriers - {"undefined", "int"}:
+                out.add("entry-type:non-int-next-to-undefined")
+            out.add("container:" + ityp.get("container", "list"))
+        elif isinstance(v, int) and ityp.get(k):
+            out.add("field-type:" + _carrier(v, ityp[k]))
+    return sorted(out)
+
+
 def _boundary(case) -> bool:
     f = case["fields"]
     if case["cls"] == "ReturnArrayMessage":
@@ -368,6 +496,7 @@ def shard(ctx: Ctx) -> None:
             labels.append("array:mixed" if nt else ("array:empty" if not vals else "array:uniform"))
         if case.get("log_level"):
             labels.append("log-level:" + case["log_level"])
+        labels.extend(_type_labels(case))
         small = len(str(case)) < 300
         if case["cls"] == "ReturnArrayMessage" and len(case["fields"]["values"]) > 64:
             labels.append("array:long" + (">256" if len(case["fields"]["values"]) > 256 else ""))
@@ -377,7 +506,7 @@ def shard(ctx: Ctx) -> None:
     ctx.search(st_message(), body, n, name="c15")
 
     def body_hist(case):
-        stt.case(case, True, ["history:" + case["mode"], "history:" + case["cls"]], sample=case)
+        stt.case(case, True, ["history:" + case["mode"], "history:" + case["cls"]] + (["history:typed-values"] if case.get("ityp") else []), sample=case)
         check_history(case)
 
     ctx.search(st_history(), body_hist, n // 4, name="c15-history", salt=5)
@@ -400,6 +529,30 @@ def shard(ctx: Ctx) -> None:
                 _try(ctx, c)
                 stt.case(c, _boundary(c), ["enum:none-patterns"])
                 k += 1
+        # every carrier type x every small pattern of undefined / 0 / 1 / 200 entries, in every container; and every
+        # fixed-size message with each carrier type (whatever the seed, each type meets each message class)
+        for tag in INT_TAGS:
+            for ln in range(1, 4):
+                for pat in itertools.product([None, 0, 1, 200], repeat=ln):
+                    if all(v is None for v in pat):
+                        continue
+                    for cont in CONTAINERS if ln == 2 else ["list"]:
+                        c = {"dir": "return", "cls": "ReturnArrayMessage", "fields": {"address": 1, "values": list(pat)}, "ityp": {"address": tag, "values": [tag], "container": cont}}
+                        _try(ctx, c)
+                        stt.case(c, _boundary(c), ["enum:entry-types"] + _type_labels(c))
+                        k += 1
+            for v in (0, 1, 100, 255):
+                for c in (
+                    {"dir": "host", "cls": "InitNewAppMessage", "fields": {"app_id": v, "max_qubits": v}},
+                    {"dir": "host", "cls": "StopAppMessage", "fields": {"app_id": v}},
+                    {"dir": "host", "cls": "OpenEPRSocketMessage", "fields": {"app_id": v, "epr_socket_id": v, "remote_node_id": v, "remote_epr_socket_id": v, "min_fidelity": v}},
+                    {"dir": "return", "cls": "MsgDoneMessage", "fields": {"msg_id": v}},
+                    {"dir": "return", "cls": "ReturnRegMessage", "fields": {"register": "M%d" % (v % 16), "value": v}},
+                ):
+                    c = dict(c, ityp={f: tag for f in c["fields"] if f != "register"})
+                    _try(ctx, c)
+                    stt.case(c, True, ["enum:field-types"] + _type_labels(c))
+                    k += 1
         # every small value of the id fields (a value that happens to equal a length or a type code must not matter)
         for v in range(0, 301):
             for c in (
@@ -413,7 +566,7 @@ def shard(ctx: Ctx) -> None:
             ):
                 _try(ctx, c)
                 k += 1
-        stt.exhaustive_domains["enum members + all {None,0,-7} array patterns up to length 6 + id fields 0..300"] = k
+        stt.exhaustive_domains["enum members + all {None,0,-7} array patterns up to length 6 + integer carrier types x {None,0,1,200} patterns up to length 3 x containers + carrier types x fixed-size messages + id fields 0..300"] = k
 
 
 def _try(ctx, case):
